@@ -531,7 +531,7 @@ def d7_tables(ctx, idx):
         for mn in TABLE_MODULES:
             m = idx.module(mn)
             for name, vals in m.assigns.items():
-                if name.isupper() and any(isinstance(v, (ast.Dict, ast.Call, ast.List, ast.Set)) for v in vals):
+                if name.isupper() and any(isinstance(v, (ast.Dict, ast.Call, ast.List, ast.Set, ast.DictComp, ast.ListComp, ast.SetComp)) for v in vals):
                     tables.add(name)
         needed = {'DEFAULT_VARIABLES', 'DEFAULT_FUNCTIONS', 'DEFAULT_SUFFIXES', 'METRIC_SUFFIXES'}
         if not needed <= tables:
